@@ -34,6 +34,22 @@ def _strip_tags(text):  # type: (str) -> str
         text = stripped
 
 
+def _safe_markup(text, template="{}"):  # type: (str, str) -> str
+    """
+    Returns the text as it is if it can be rendered inside the given template,
+    and without anything that looks like a style tag if the formatter rejects
+    its markup (tags that are not nested properly, unknown colors).
+    """
+    try:
+        # A formatter of its own: a failure leaves the style stack of the formatter
+        # in an undefined state
+        PlainFormatter().remove_format(template.format(text))
+    except ValueError:
+        return _strip_tags(text)
+
+    return text
+
+
 class Highlighter(object):
 
     TOKEN_DEFAULT = "token_default"
@@ -103,10 +119,18 @@ class Highlighter(object):
         buffer = ""
         current_type = None
         source_io = io.BytesIO(encode(source))
-        formatter = PlainFormatter()
+        formatter = [PlainFormatter()]
 
         def readline():
-            return encode(formatter.remove_format(decode(source_io.readline())))
+            source_line = decode(source_io.readline())
+            try:
+                source_line = formatter[0].remove_format(source_line)
+            except ValueError:
+                # The line contains something that is not valid markup
+                source_line = _strip_tags(source_line)
+                formatter[0] = PlainFormatter()
+
+            return encode(source_line)
 
         tokens = tokenize.tokenize(readline)
         line = ""
@@ -261,7 +285,11 @@ class ExceptionTrace(object):
 
     def render(self, io, simple=False):  # type: (IO, bool) -> None
         if simple:
-            io.write_line("<error>{}</error>".format(str(self._exception)))
+            io.write_line(
+                "<error>{}</error>".format(
+                    _safe_markup(str(self._exception), "<error>{}</error>")
+                )
+            )
             return
 
         if not PY36:
@@ -299,9 +327,9 @@ class ExceptionTrace(object):
             io, "<error>{}</error>".format(inspector.exception_name), True
         )
         io.write_line("")
-        exception_message = io.remove_format(inspector.exception_message).replace(
-            "\n", "\n  "
-        )
+        exception_message = io.remove_format(
+            _safe_markup(inspector.exception_message)
+        ).replace("\n", "\n  ")
         self._render_line(io, "<b>{}</b>".format(exception_message))
 
         current_frame = inspector.frames[-1]
@@ -448,7 +476,7 @@ class ExceptionTrace(object):
         if new_line:
             io.write_line("")
 
-        io.write_line("{}{}".format(indent * " ", line))
+        io.write_line("{}{}".format(indent * " ", _safe_markup(line)))
 
     def _get_relative_file_path(self, filepath):
         cwd = os.getcwd()
